@@ -218,3 +218,10 @@ def unit_drift_rate(vc):
     # parameters (the property does not fix a sign convention for descending bands; the helper returns
     # the signed channel bandwidth's sign - triaged D17, not a finding)
     vc.ensure('C20/get_unit_drift_rate/post/magnitude-equals-frame-df-over-dt', eq(abs(out.value), d['df'] / d['dt']))
+
+
+# "the antenna source advances its clock accordingly": for an array the clock must advance by the samples delivered, not by the background
+# draw (which is max_delay longer on the first request).  C15's first-request contract states exactly that (array-clock, stream positions);
+# it is discharged again here.
+from . import c15 as _C15
+contract('C20', 'array_clock_advances_by_the_samples_delivered', functions=[_C15.MA + '.get_samples'])(_C15.first_request)
